@@ -7,9 +7,15 @@ use crate::internal::left_right;
 use papaya::HashMap;
 use std::fmt;
 use std::hash::Hash;
+#[cfg(not(all(excsn_fibre_verif, excsn_fibre_verif_shuttle)))]
 use std::sync::{
   atomic::{AtomicUsize, Ordering},
   Arc, Weak,
+};
+#[cfg(all(excsn_fibre_verif, excsn_fibre_verif_shuttle))]
+use {
+  crate::internal::sync::{AtomicUsize, Ordering},
+  std::sync::{Arc, Weak},
 };
 
 /// A highly-concurrent list of subscribers for a single topic.
@@ -49,7 +55,10 @@ where
   pub(crate) sender_count: AtomicUsize,
   /// Every receiver's mailbox, subscribed or not, so that disconnection reaches
   /// receivers whatever their subscriptions are at that moment.
+  #[cfg(not(all(excsn_fibre_verif, excsn_fibre_verif_shuttle)))]
   pub(crate) mailboxes: parking_lot::Mutex<Vec<Weak<mailbox::MailboxProducer<(K, T)>>>>,
+  #[cfg(all(excsn_fibre_verif, excsn_fibre_verif_shuttle))]
+  pub(crate) mailboxes: crate::internal::sync::Mutex<Vec<Weak<mailbox::MailboxProducer<(K, T)>>>>,
 }
 
 impl<K, T> fmt::Debug for SpmcTopicDispatcher<K, T>
@@ -82,7 +91,10 @@ where
       subscriptions: HashMap::new(),
       receiver_count: AtomicUsize::new(0),
       sender_count: AtomicUsize::new(1),
+      #[cfg(not(all(excsn_fibre_verif, excsn_fibre_verif_shuttle)))]
       mailboxes: parking_lot::Mutex::new(Vec::new()),
+      #[cfg(all(excsn_fibre_verif, excsn_fibre_verif_shuttle))]
+      mailboxes: crate::internal::sync::Mutex::new(Vec::new()),
     }
   }
 
